@@ -1463,6 +1463,302 @@ theorem runPipe_append (ms ns : List Machine) (I : Strm) : runPipe (ms ++ ns) I 
   simp [Stream.runPipe, List.foldl_append]
 
 
+/-! ### operators seen from a SECONDARY lazy collection argument
+
+`join`'s second collection (memorised), the further collections of `zip` / `zipLongest` / `concat` /
+`+`, the values of `insertMany` / `replaceMany`, the default of `defaultIfEmpty`, the result of a
+`selectMany` selector.  The machines run over THAT collection, so the generic `causal` applies as
+it stands: what the operator has produced by the time n elements of its secondary collection are
+pulled depends on those n elements only. -/
+
+theorem causal_joinInner (outer : VL) (pred sel : Lam2) (xs ys : VL) :
+    (outsOf (mJoinInner outer pred sel) (xs ++ ys)).filter (fun o => decide (o.pulls ≤ xs.length)) =
+      outsOf (mJoinInner outer pred sel) xs := causal _ xs ys
+theorem causal_zipAt (before after : List VL) (xs ys : VL) :
+    (outsOf (mZipAt before after) (xs ++ ys)).filter (fun o => decide (o.pulls ≤ xs.length)) = outsOf (mZipAt before after) xs :=
+  causal _ xs ys
+theorem causal_zipLongestAt (before after : List VL) (fill : Value) (xs ys : VL) :
+    (outsOf (mZipLongestAt before after fill) (xs ++ ys)).filter (fun o => decide (o.pulls ≤ xs.length)) =
+      outsOf (mZipLongestAt before after fill) xs := causal _ xs ys
+theorem causal_splice (head : VL) (tail : Option VL) (xs ys : VL) :
+    (outsOf (mSplice head tail) (xs ++ ys)).filter (fun o => decide (o.pulls ≤ xs.length)) = outsOf (mSplice head tail) xs :=
+  causal _ xs ys
+theorem causal_selectManyInner (b : Bool) (xs ys : VL) :
+    (outsOf (mSelectManyInner b) (xs ++ ys)).filter (fun o => decide (o.pulls ≤ xs.length)) = outsOf (mSelectManyInner b) xs :=
+  causal _ xs ys
+
+/-- a pipeline feeding the secondary argument, the operator, and whatever follows it: causal as a whole -/
+theorem causal_secondary (feed post : List Machine) (m : Machine) (xs ys : VL) :
+    (pipeOuts (feed ++ m :: post) (xs ++ ys)).filter (fun o => decide (o.pulls ≤ xs.length)) = pipeOuts (feed ++ m :: post) xs :=
+  causal_pipeline _ xs ys
+
+/-- an operator that is done before its first pull never asks its input for anything: the result
+    is closed at 0 pulls whatever the input is (even an endless one) -/
+theorem runOn_of_start_stop (m : Machine) (h : m.start.stop = true) (I : Strm) :
+    runOn m I = ⟨stampOuts m.start.outs 0 0, some (0, m.start.apps)⟩ := by
+  simp [runOn, h]
+
+/-! #### join, inner side -/
+
+/-- the rows made with the first outer element `x`: inner element j gives its rows at `i+j+1`
+    pulls, one predicate application (and one selector application when it holds) each -/
+def linJoinInner (pred sel : Lam2) (x : Value) (i a : Nat) : VL → List Out
+  | [] => []
+  | y :: ys =>
+    stampOuts (joinCosts pred sel x 0 [y]).1 (i + 1) a ++
+      (if (joinCosts pred sel x 0 [y]).2.2 then []
+       else linJoinInner pred sel x (i + 1) (a + (joinCosts pred sel x 0 [y]).2.1) ys)
+
+theorem joinInner_run (x : Value) (rest : VL) (pred sel : Lam2) (ys : VL) :
+    ∀ (memo : VL) (i a : Nat),
+      (runFrom (mJoinInner (x :: rest) pred sel) memo a (stampSrc i ys) none).outs = linJoinInner pred sel x i a ys := by
+  induction ys with
+  | nil => intro memo i a; exact runFrom_src_nil _ _ _ _
+  | cons y ys ih =>
+    intro memo i a
+    rw [runFrom_src_cons]
+    have hs : (mJoinInner (x :: rest) pred sel).step memo y =
+        { st := y :: memo, outs := (joinCosts pred sel x 0 [y]).1, apps := (joinCosts pred sel x 0 [y]).2.1,
+          stop := (joinCosts pred sel x 0 [y]).2.2 } := rfl
+    rw [hs]
+    simp only [linJoinInner]
+    rw [ih]
+
+/-- `join`, inner side, some outer element: the inner collection is pulled on demand while the rows
+    of the FIRST outer element are made - whatever the other outer elements are -/
+theorem cost_tight_joinInner (x : Value) (rest : VL) (pred sel : Lam2) (ys : VL) :
+    outsOf (mJoinInner (x :: rest) pred sel) ys = linJoinInner pred sel x 0 0 ys := by
+  rw [outsOf_eq]
+  have hst : (mJoinInner (x :: rest) pred sel).start = idle [] := rfl
+  rw [hst]
+  simp only [idle, stampOuts, List.map_nil, List.nil_append, Bool.false_eq_true, ↓reduceIte]
+  exact joinInner_run x rest pred sel ys [] 0 0
+
+/-- a row made from inner element j costs j+1 pulls of the inner collection and at most 2(j+1)
+    applications -/
+theorem linJoinInner_cost (pred sel : Lam2) (x : Value) (i a : Nat) (ys : VL) :
+    ∀ o ∈ linJoinInner pred sel x i a ys, ∃ j, j < ys.length ∧ o.pulls = i + j + 1 ∧ o.apps ≤ a + 2 * (j + 1) := by
+  induction ys generalizing i a with
+  | nil => simp [linJoinInner]
+  | cons y ys ih =>
+    intro o ho
+    simp only [linJoinInner, List.mem_append] at ho
+    rcases ho with ho | ho
+    · simp only [stampOuts, List.mem_map] at ho
+      obtain ⟨p, hp, rfl⟩ := ho
+      have := (joinCosts_apps pred sel x 0 [y]).2 p hp
+      exact ⟨0, by simp, rfl, by simp at this ⊢; omega⟩
+    · split at ho
+      · simp at ho
+      · obtain ⟨j, hj, hp, ha⟩ := ih (i + 1) _ o ho
+        have := (joinCosts_apps pred sel x 0 [y]).1
+        simp at this
+        exact ⟨j + 1, by simp; omega, by omega, by omega⟩
+
+/-- `join` with no outer element never touches its second collection -/
+theorem joinInner_empty_outer (pred sel : Lam2) (I : Strm) :
+    runOn (mJoinInner [] pred sel) I = ⟨[], some (0, 0)⟩ := by
+  rw [runOn_of_start_stop _ rfl]
+  rfl
+
+/-- the second collection is gone through ONCE, however many outer elements there are: on a
+    collection of n elements no row costs more than the n pulls plus the one that finds the end -/
+theorem joinInner_single_pass (outer : VL) (pred sel : Lam2) (ys : VL) :
+    ∀ o ∈ (runOn (mJoinInner outer pred sel) (srcClosed ys)).outs, o.pulls ≤ ys.length + 1 := by
+  intro o ho
+  rcases compose_cost _ _ o ho with h | ⟨i, hi, hp, _⟩ | ⟨p, ua, hf, hp, _⟩
+  · omega
+  · have := (stampSrc_pulls 0 ys i hi).2
+    omega
+  · simp only [srcClosed, Option.some.injEq, Prod.mk.injEq] at hf
+    omega
+
+/-! #### zip, a later collection -/
+
+def linZipAt (before after : List VL) (j i a : Nat) : VL → List Out
+  | [] => []
+  | y :: ys =>
+    if after.all (fun o => decide (j < o.length)) then
+      ⟨.ok (tuple (before.map (fun o => o.getD j null) ++ y :: after.map fun o => o.getD j null)), i + 1, a⟩ ::
+        (if before.all (fun o => decide (j + 1 < o.length)) then linZipAt before after (j + 1) (i + 1) a ys else [])
+    else []
+
+theorem zipAt_run (before after : List VL) (ys : VL) (j i a : Nat) :
+    (runFrom (mZipAt before after) j a (stampSrc i ys) none).outs = linZipAt before after j i a ys := by
+  induction ys generalizing j i with
+  | nil => exact runFrom_src_nil _ _ _ _
+  | cons y ys ih =>
+    rw [runFrom_src_cons]
+    by_cases hall : after.all (fun o => decide (j < o.length)) = true
+    · by_cases hb : before.all (fun o => decide (j + 1 < o.length)) = true
+      · have hs : (mZipAt before after).step j y =
+            { st := j + 1, outs := oks [tuple (before.map (fun o => o.getD j null) ++ y :: after.map fun o => o.getD j null)] 0,
+              stop := false } := by
+          simp only [mZipAt, hall, hb, ↓reduceIte, Bool.not_true]
+        rw [hs]
+        simp only [linZipAt, hall, hb, ↓reduceIte, stampOuts, oks, List.map_cons, List.map_nil, Nat.add_zero, Bool.false_eq_true,
+          List.cons_append, List.nil_append, List.cons.injEq, true_and]
+        exact ih (j + 1) (i + 1)
+      · have hs : (mZipAt before after).step j y =
+            { st := j + 1, outs := oks [tuple (before.map (fun o => o.getD j null) ++ y :: after.map fun o => o.getD j null)] 0,
+              stop := true } := by
+          simp only [mZipAt, hall, ↓reduceIte]
+          simp [hb]
+        rw [hs]
+        simp [linZipAt, hall, hb, stampOuts, oks]
+    · have hs : (mZipAt before after).step j y = done j := by simp only [mZipAt, hall, Bool.false_eq_true, ↓reduceIte]
+      rw [hs]
+      simp [linZipAt, hall, done, stampOuts]
+
+/-- `zip`, a later collection: nothing is pulled when a collection in front is empty; otherwise -/
+theorem cost_tight_zipAt (before after : List VL) (ys : VL) :
+    outsOf (mZipAt before after) ys =
+      if before.all (fun o => decide (0 < o.length)) then linZipAt before after 0 0 0 ys else [] := by
+  rw [outsOf_eq]
+  by_cases hb : before.all (fun o => decide (0 < o.length)) = true
+  · have hst : (mZipAt before after).start = idle 0 := by simp only [mZipAt, hb, ↓reduceIte]
+    rw [hst]
+    simp only [idle, stampOuts, List.map_nil, List.nil_append, Bool.false_eq_true, ↓reduceIte, hb]
+    exact zipAt_run before after ys 0 0 0
+  · have hst : (mZipAt before after).start = done 0 := by simp only [mZipAt, hb, Bool.false_eq_true, ↓reduceIte]
+    rw [hst]
+    simp [done, stampOuts, hb]
+
+/-- row k costs k+1 pulls of the later collection, and it is never asked for more rows than the
+    shortest collection in front of it has -/
+theorem linZipAt_pulls (before after : List VL) (j i a : Nat) (ys : VL) (k : Nat) (o : Out)
+    (h : (linZipAt before after j i a ys)[k]? = some o) :
+    o.pulls = i + k + 1 ∧ o.apps = a ∧ ∀ b ∈ before, j + k < b.length ∨ k = 0 := by
+  induction ys generalizing j i k with
+  | nil => simp [linZipAt] at h
+  | cons y ys ih =>
+    simp only [linZipAt] at h
+    split at h
+    · cases k with
+      | zero => simp at h; subst h; simp
+      | succ k =>
+        simp only [List.getElem?_cons_succ] at h
+        split at h
+        · rename_i hb
+          have := ih (j + 1) (i + 1) k h
+          refine ⟨by omega, this.2.1, ?_⟩
+          intro b hbm
+          rcases this.2.2 b hbm with h1 | h1
+          · left; omega
+          · left
+            have := List.all_eq_true.mp hb b hbm
+            simp at this
+            omega
+        · simp at h
+    · simp at h
+
+/-! #### a lazy collection spliced between constant runs: concat, +, insertMany, replaceMany, defaultIfEmpty -/
+
+theorem splice_run (head : VL) (tail : Option VL) (ys : VL) (i a : Nat) :
+    (runFrom (mSplice head tail) () a (stampSrc i ys) none).outs = lin id 0 i a ys := by
+  induction ys generalizing i a with
+  | nil => exact runFrom_src_nil _ _ _ _
+  | cons y ys ih =>
+    rw [runFrom_src_cons]
+    have hs : (mSplice head tail).step () y = { st := (), outs := oks [y] 0 } := rfl
+    rw [hs]
+    simp only [stampOuts, oks, List.map_cons, List.map_nil, lin, Nat.add_zero, id, Bool.false_eq_true, ↓reduceIte,
+      List.cons_append, List.nil_append, List.cons.injEq, true_and]
+    exact ih (i + 1) a
+
+/-- the constant run in front costs nothing; then element k of the lazy collection costs k pulls
+    (the run behind it is only reached at exhaustion) -/
+theorem cost_tight_splice (head tail : VL) (ys : VL) :
+    outsOf (mSplice head (some tail)) ys = head.map (fun v => ⟨.ok v, 0, 0⟩) ++ lin id 0 0 0 ys := by
+  rw [outsOf_eq]
+  have hst : (mSplice head (some tail)).start = { st := (), outs := oks head 0 } := rfl
+  rw [hst]
+  simp only [stampOuts, oks, List.map_map, Bool.false_eq_true, ↓reduceIte]
+  rw [splice_run]
+  rfl
+
+/-- `replaceMany` whose range meets no element, `defaultIfEmpty` on a non-empty receiver: the lazy
+    argument is never asked for anything -/
+theorem splice_untouched (head : VL) (I : Strm) :
+    runOn (mSplice head none) I = ⟨head.map (fun v => ⟨.ok v, 0, 0⟩), some (0, 0)⟩ := by
+  rw [runOn_of_start_stop _ rfl]
+  simp [stampOuts, oks]
+
+theorem spliceDefault_nonempty (x : Value) (xs : VL) : spliceDefault (x :: xs) = (x :: xs, none) := rfl
+theorem spliceDefault_empty : spliceDefault [] = ([], some []) := rfl
+
+/-- a range that meets no element of the receiver leaves the values untouched (count = 0, or a position
+    at or behind the end) -/
+theorem spliceReplaceMany_none (pos count : Int) (xs : VL) (i : Nat)
+    (h : ∀ k, k < xs.length → inRange pos count (i + k) = false) :
+    spliceReplaceMany pos count i xs = (xs, none) := by
+  induction xs generalizing i with
+  | nil => rfl
+  | cons x xs ih =>
+    have h0 := h 0 (by simp)
+    simp only [Nat.add_zero] at h0
+    simp only [spliceReplaceMany, h0, Bool.false_eq_true, ↓reduceIte]
+    rw [ih (i + 1) (fun k hk => by have := h (k + 1) (by simpa using hk); rwa [Nat.add_assoc, Nat.add_comm 1 k])]
+
+/-- the pieces of `replaceMany` put together again are what the reference function of C13 gives -/
+theorem spliceReplaceMany_spec (pos count : Int) (vals : VL) (xs : VL) (i : Nat) :
+    replaceFrom pos count vals i false xs =
+      (spliceReplaceMany pos count i xs).1 ++
+        (match (spliceReplaceMany pos count i xs).2 with | none => [] | some t => vals ++ t) := by
+  induction xs generalizing i with
+  | nil => rfl
+  | cons x xs ih =>
+    by_cases hr : inRange pos count i = true
+    · simp only [replaceFrom, spliceReplaceMany, hr, ↓reduceIte, Bool.false_eq_true, List.nil_append]
+      congr 1
+      have : ∀ (j : Nat) (zs : VL), replaceFrom pos count vals j true zs = deleteFrom pos count j zs := by
+        intro j zs
+        induction zs generalizing j with
+        | nil => rfl
+        | cons z zs ihz =>
+          simp only [replaceFrom, deleteFrom, ↓reduceIte, List.nil_append]
+          split <;> simp [ihz]
+      exact this _ _
+    · simp only [Bool.not_eq_true] at hr
+      simp only [replaceFrom, spliceReplaceMany, hr, Bool.false_eq_true, ↓reduceIte, List.cons_append]
+      rw [ih (i + 1)]
+
+/-- `insertMany`: the pieces put together again -/
+theorem spliceInsertMany_parts (xs : VL) (pos : Int) :
+    (spliceInsertMany xs pos).1 ++ ((spliceInsertMany xs pos).2.getD []) = xs := by
+  simp [spliceInsertMany]
+
+/-! #### the result of a `selectMany` selector -/
+
+theorem cost_tight_selectManyInner (ys : VL) : outsOf (mSelectManyInner true) ys = lin id 0 0 1 ys := by
+  rw [outsOf_eq]
+  have hst : (mSelectManyInner true).start = { st := (), apps := 1 } := rfl
+  rw [hst]
+  simp only [stampOuts, List.map_nil, List.nil_append, Bool.false_eq_true, ↓reduceIte]
+  have : ∀ (i a : Nat), (runFrom (mSelectManyInner true) () a (stampSrc i ys) none).outs = lin id 0 i a ys := by
+    induction ys with
+    | nil => intro i a; exact runFrom_src_nil _ _ _ _
+    | cons y ys ih =>
+      intro i a
+      rw [runFrom_src_cons]
+      have hs : (mSelectManyInner true).step () y = { st := (), outs := oks [y] 0 } := rfl
+      rw [hs]
+      simp only [stampOuts, oks, List.map_cons, List.map_nil, lin, Nat.add_zero, id, Bool.false_eq_true, ↓reduceIte,
+        List.cons_append, List.nil_append, List.cons.injEq, true_and]
+      exact ih (i + 1) a
+  exact this 0 1
+
+theorem selectManyInner_empty (I : Strm) : runOn (mSelectManyInner false) I = ⟨[], some (0, 0)⟩ := by
+  rw [runOn_of_start_stop _ rfl]
+  rfl
+
+/-- non-vacuity: the demo of the join seed - two outer elements, three inner ones behind a `select`,
+    first row wanted: ONE inner element is pulled, and none with an empty outer side -/
+example : ((pipeOuts [mSelect .arg, mJoinInner [.int 1, .int 2] (.const (.bool true)) .plus, mTake 1]
+    [.int 10, .int 20, .int 30]).map fun o => (o.pulls, o.apps)) = [(1, 3)] := by decide
+example : (Stream.runPipe [mSelect .arg, mJoinInner [] (.const (.bool true)) .plus] (srcClosed [.int 10, .int 20])).fin = some (0, 0) := by
+  decide
+
 /-! ### non-vacuity: concrete pipelines -/
 
 /-- `[1,2,3,...].where($ > 1).select($ + 10)`: the first result needs 2 pulls / 3 applications, the
